@@ -262,7 +262,7 @@ NARROW = {"int8": "i", "int16": "i", "uint8": "i", "float32": "f", "complex64": 
 @st.composite
 def s_binop(draw, force_huge=False):
     import os
-    huge = force_huge or draw(st.integers(1, 2 ** 30)) % (30 if os.environ.get("VF_TIER") == "thorough" else 150) == 7
+    huge = force_huge or draw(st.integers(1, 2 ** 30)) % 150 == 7
     x = draw(s_signal(n=draw(st.sampled_from([131072, 140001, 2 ** 18])), fams=["smallint", "unif", "alt"]) if huge else s_signal(lmax=64))
     n = x["sig"]["n"]
     y = draw(s_operand(n, x["cls"], x["npol"]))
